@@ -16,7 +16,8 @@ def _files(unit, rng, any_rpc=False):
     if unit == "leader":
         n_att = int(rng.integers(1, 6))
         att_len = int(rng.choice([16 + 120 * n_att, 16384, 16 + 120 * n_att + int(rng.integers(1, 300))]))
-        pdate = [(1, 1), (12, 31), (2, 28), (int(rng.integers(1, 13)), int(rng.integers(1, 29)))][int(rng.integers(0, 4))]
+        # dates whose digits read differently once the separating blanks are gone (1/11 vs 11/1 ...) are boundary values too
+        pdate = [(1, 1), (12, 31), (2, 28), (1, 11), (1, 29), (11, 1), (10, 1), (int(rng.integers(1, 13)), int(rng.integers(1, 29)))][int(rng.integers(0, 8))]
         secs = ["43200.5", "86399.999", "0.001", f"{rng.uniform(0, 86399):.6f}", f"{rng.uniform(0, 86399):.3f}",
                 f"{int(rng.integers(0, 86400))}.{int(rng.integers(0, 1000000)):06d}"][int(rng.integers(0, 6))]
         data = synth.leader_file(seconds_of_day=secs, platform_date=pdate, n_att=n_att, n_chan=int(rng.integers(1, 17)), mapproj=int(rng.integers(0, 2)),
